@@ -16,6 +16,7 @@ RULE = (
     "yield condition / monotone plastic strain hold, nothing is yielded after a failure, the exception propagates and "
     "state variables stay bit-equal to the last committed copy. Elastic: two generated subdivisions of the same end "
     "value give the same final state. Non-trivial: >= 1 load reversal or repeated value, or an injected failure."
+    " family 'ramped-items': PointLoad (also axisymmetric) and gravity ramped by a Step through item.update; class 'mixed-or': a history material inside the three-field wrapper."
 )
 ASSUMPTIONS = [
     "a non-converging substep is injected with a NaN ramp value (deterministic ValueError of the Newton solver); generated large jumps may additionally fail to converge and are treated as legitimate failures",
